@@ -301,6 +301,8 @@ def run_phase(root: str, phase: dict, trace=None, rng_seed: str = "") -> dict:  
     listing.sort()
     tmp_litter = sum(1 for name, _ in listing if not name.endswith(".pkl"))
     zero_len = sum(1 for name, size in listing if name.endswith(".pkl") and size == 0)
+    # names contain cache keys, which may depend on object addresses: digest kinds and sizes only
+    listing = sorted((os.path.splitext(name)[1], size) for name, size in listing)
     return {
         "results": results,
         "trace": chooser.trace,
